@@ -163,6 +163,9 @@ def make_faults():
     ret_fault("nested-result", const(["result", ["prim", "u8"], ["unit"], "std"]), wraps=("ok", "err"))
     ret_fault("option-of-result", const(["opt", ["result", ["prim", "u8"], ["unit"], "std"], "std"]), wraps=("plain",))
     ret_fault("write-in-output", const(raw("DiplomatWrite")), wraps=("plain", "ok"))
+    # a std Option of a non-pointer nested in a Result arm is not converted by the proc macro (only the top-level one is): DiplomatOption is required
+    ret_fault("std-option-of-primitive-in-result-arm", const(["opt", ["prim", "u8"], "std"]), wraps=("ok", "err"))
+    ret_fault("std-option-of-enum-in-result-arm", with_enum(lambda n: ["opt", ["enum", n], "std"]), wraps=("ok", "err"))
     ret_fault("callback-in-output", const(["cb", [["prim", "u8"]], ["unit"], False]), wraps=("plain", "ok"))
     param_fault("result-returned-by-callback", const(["cb", [], ["result", ["prim", "u8"], ["unit"], "std"], False]), depth=2)
 
